@@ -523,3 +523,125 @@ Proof.
   exfalso. assert (Hk : In k (keys ((k, e) :: m))) by (left; reflexivity).
   apply C3 in Hk. destruct Hk as [Hk1 Hk2]. apply Hsub in Hk1. apply nseq_in in Hk1. lia.
 Qed.
+
+(* ---- nothing is lost or duplicated in the buffer (used by the pipeline invariant) ------------- *)
+
+Lemma map_del_absent {A} k (m : list (N * A)) : ~ In k (keys m) -> map_del k m = m.
+Proof.
+  induction m as [|[k' v] m IH]; intro H; [reflexivity|].
+  unfold map_del. cbn [filter fst]. cbn [keys map fst] in H.
+  destruct (k' =? k) eqn:E.
+  - apply N.eqb_eq in E. exfalso. apply H. left. exact E.
+  - cbn [negb]. f_equal. apply IH. intro Hin. apply H. right. exact Hin.
+Qed.
+
+Lemma map_get_perm {A} k (m : list (N * A)) v :
+  NoDup (keys m) -> map_get k m = Some v -> Permutation m ((k, v) :: map_del k m).
+Proof.
+  induction m as [|[k' v'] m IH]; intros Hnd H; [discriminate|].
+  cbn [keys map fst] in Hnd. inversion Hnd as [|x l Hx Hnd']; subst.
+  cbn [map_get] in H. destruct (k =? k') eqn:E.
+  - apply N.eqb_eq in E. subst k'. inversion H; subst v'.
+    unfold map_del. cbn [filter fst]. rewrite N.eqb_refl. cbn [negb].
+    fold (map_del k m). rewrite map_del_absent by exact Hx. apply Permutation_refl.
+  - unfold map_del. cbn [filter fst]. rewrite N.eqb_sym, E. cbn [negb]. fold (map_del k m).
+    eapply perm_trans; [apply perm_skip; apply IH; assumption|]. apply perm_swap.
+Qed.
+
+Lemma nodup_keys_del {A} k (m : list (N * A)) : NoDup (keys m) -> NoDup (keys (map_del k m)).
+Proof.
+  induction m as [|[k' v] m IH]; intro H; [constructor|].
+  cbn [keys map fst] in H. inversion H as [|x l Hx Hnd]; subst.
+  unfold map_del. cbn [filter fst]. destruct (k' =? k); cbn [negb]; [apply IH; exact Hnd|].
+  cbn [keys map fst]. constructor; [|apply IH; exact Hnd].
+  intro Hin. apply keys_map_del in Hin. tauto.
+Qed.
+
+(* the buffer's well-formedness: the ready slot holds the drain sequence, map keys are distinct *)
+Record BufOK (s : wstate) : Prop := {
+  bo_entries : entries_ok s;
+  bo_nodup : NoDup (keys (ws_completed s));
+  bo_ready : forall e, ws_ready s = Some e -> ev_seq e = ws_drain s }.
+
+Lemma pop_perm s e s' :
+  BufOK s -> popNextAppendCompletion s = (Some e, s') ->
+  Permutation (buffered s) (e :: buffered s') /\ BufOK s'.
+Proof.
+  intros [B1 B2 B3] P. unfold popNextAppendCompletion in P.
+  assert (Hmap : pop_map s = (Some e, s') -> Permutation (buffered s) (e :: buffered s') /\ BufOK s').
+  { unfold pop_map. destruct (map_get (ws_drain s) (ws_completed s)) as [v|] eqn:G; [|discriminate].
+    intro H. inversion H; subst. split.
+    - unfold buffered. cbn [ws_ready ws_completed].
+      pose proof (map_get_perm _ _ _ B2 G) as Pm.
+      apply (Permutation_map snd) in Pm. cbn [map snd] in Pm.
+      eapply perm_trans; [apply Permutation_app_head; exact Pm|].
+      apply Permutation_sym. apply Permutation_middle.
+    - constructor; cbn [ws_ready ws_completed ws_drain].
+      + intros k x Hx. apply in_map_del in Hx. destruct Hx as [Hx _]. apply (B1 _ _ Hx).
+      + apply nodup_keys_del. exact B2.
+      + intros x Hx. exfalso.
+        (* a pop from the map happens only when the ready slot cannot be popped *)
+        destruct (ws_ready s) as [r|] eqn:R; [|discriminate].
+        rewrite (B3 r eq_refl), N.eqb_refl in P. inversion P. }
+  destruct (ws_ready s) as [r|] eqn:R; [|exact Hmap].
+  destruct (ev_seq r =? ws_drain s) eqn:E; [|exact Hmap].
+  inversion P; subst. split.
+  - unfold buffered. cbn [ws_ready ws_completed]. rewrite R. apply Permutation_refl.
+  - constructor; cbn [ws_ready ws_completed ws_drain]; auto. intros x Hx. discriminate.
+Qed.
+
+Lemma finish_bufok s n : BufOK s -> BufOK (finishAppend s n).
+Proof. intros [B1 B2 B3]. constructor; auto. Qed.
+
+Lemma drain_perm fuel : forall s out s',
+  BufOK s -> drain fuel s = (out, s') -> Permutation (buffered s) (out ++ buffered s') /\ BufOK s'.
+Proof.
+  induction fuel as [|fuel IH]; intros s out s' HB H; cbn [drain] in H.
+  - inversion H; subst. split; [apply Permutation_refl|exact HB].
+  - destruct (popNextAppendCompletion s) as [[e|] s1] eqn:P.
+    + destruct (drain fuel (finishAppend s1 (N.of_nat (length (ev_items e))))) as [evs s2] eqn:D.
+      inversion H; subst. clear H.
+      destruct (pop_perm _ _ _ HB P) as [P1 HB1].
+      destruct (IH _ _ _ (finish_bufok _ _ HB1) D) as [P2 HB2]. rewrite finish_buffered in P2.
+      split; [|exact HB2]. cbn [app]. eapply perm_trans; [exact P1|]. apply perm_skip. exact P2.
+    + pose proof (pop_none_state _ _ P) as E1. subst s1. inversion H; subst.
+      split; [apply Permutation_refl|exact HB].
+Qed.
+
+(* recording a completion whose sequence number is new and not yet drained keeps it *)
+Lemma record_perm s ev :
+  BufOK s -> ws_drain s <= ev_seq ev -> ~ In (ev_seq ev) (map ev_seq (buffered s)) ->
+  Permutation (buffered (recordAppendCompletion s ev)) (ev :: buffered s)
+  /\ BufOK (recordAppendCompletion s ev).
+Proof.
+  intros [B1 B2 B3] Hge Hnew. unfold recordAppendCompletion.
+  destruct (ev_seq ev <? ws_drain s) eqn:E1; [apply N.ltb_lt in E1; lia|].
+  destruct ((ev_seq ev =? ws_drain s) && negb (match ws_ready s with Some _ => true | None => false end)) eqn:E2.
+  - apply andb_true_iff in E2. destruct E2 as [E2 E3]. apply N.eqb_eq in E2.
+    destruct (ws_ready s) eqn:R; [discriminate|]. split.
+    + unfold buffered. cbn [ws_ready ws_completed]. rewrite R. apply Permutation_refl.
+    + constructor; cbn [ws_ready ws_completed ws_drain]; auto. intros x Hx. inversion Hx; subst. exact E2.
+  - assert (Hk : ~ In (ev_seq ev) (keys (ws_completed s))).
+    { intro Hin. apply Hnew. unfold buffered. rewrite map_app. apply in_or_app. right.
+      unfold keys in Hin. apply in_map_iff in Hin. destruct Hin as [[k x] [Ek Hx]]. cbn in Ek. subst k.
+      rewrite map_map. apply in_map_iff. exists (ev_seq ev, x). split; [|exact Hx].
+      cbn. apply (B1 _ _ Hx). }
+    split.
+    + unfold buffered. cbn [ws_ready ws_completed]. unfold map_put. rewrite map_del_absent by exact Hk.
+      cbn [map snd]. apply Permutation_sym. apply Permutation_middle.
+    + constructor; cbn [ws_ready ws_completed ws_drain]; auto.
+      * intros k x Hx. unfold map_put in Hx. destruct Hx as [Hx|Hx]; [inversion Hx; reflexivity|].
+        apply in_map_del in Hx. destruct Hx as [Hx _]. apply (B1 _ _ Hx).
+      * unfold map_put. cbn [keys map fst]. rewrite map_del_absent by exact Hk. constructor; assumption.
+Qed.
+
+Lemma apply_perm s ev out s' :
+  BufOK s -> ws_drain s <= ev_seq ev -> ~ In (ev_seq ev) (map ev_seq (buffered s)) ->
+  applyAppendCompletion s ev = (out, s') ->
+  Permutation (ev :: buffered s) (out ++ buffered s') /\ BufOK s'.
+Proof.
+  intros HB Hge Hnew H. unfold applyAppendCompletion in H.
+  destruct (record_perm _ _ HB Hge Hnew) as [P1 HB1].
+  destruct (drain_perm _ _ _ _ HB1 H) as [P2 HB2].
+  split; [|exact HB2]. eapply perm_trans; [apply Permutation_sym; exact P1|exact P2].
+Qed.
